@@ -20,6 +20,12 @@ pub fn assert_c11(c: &Phys, ev: &Eval, ctx: &mut Ctx) -> Result<(), Failure> {
     if o.u_trop.to_bits() != 1f64.to_bits() || o.v_trop.to_bits() != 1f64.to_bits() {
         fail!("trop-not-one", "returned u_trop={} v_trop={} (must both be exactly 1 in the rescaled gauge)", o.u_trop, o.v_trop);
     }
+    if ev.sym.degenerate_momenta {
+        // the code's tropical polynomials are topological; they coincide with the largest monomials of the actual F
+        // only for generic momenta (no partial sum of external momenta vanishes)
+        ctx.label("excluded:non-generic-momenta");
+        return Ok(());
+    }
     if !ev.in_range {
         ctx.label("excluded:out-of-range");
         return Ok(());
